@@ -19,7 +19,7 @@ pub(crate) struct MemfsFile {
 impl MemfsFile {
     /// Returns the length of the file remaining from the current position
     pub(crate) fn len(&self) -> u64 {
-        self.data.len() as u64 - self.pos
+        (self.data.len() as u64).saturating_sub(self.pos)
     }
 
     /// Attempt to write the data to the data store
@@ -64,6 +64,9 @@ impl io::Read for MemfsFile {
 
         // Determine max data to read from the file
         let len = cmp::min(buf.len(), self.len() as usize);
+        if len == 0 {
+            return Ok(0);
+        }
 
         // Read the indicated data length
         buf[..len].copy_from_slice(&self.data.as_slice()[pos..pos + len]);
@@ -79,12 +82,24 @@ impl io::Read for MemfsFile {
 // Implement the Seek trait for the MemfsFile
 impl io::Seek for MemfsFile {
     fn seek(&mut self, pos: io::SeekFrom) -> std::io::Result<u64> {
-        match pos {
-            io::SeekFrom::Start(offset) => self.pos = offset,
-            io::SeekFrom::Current(offset) => self.pos = (self.pos as i64 + offset) as u64,
-            io::SeekFrom::End(offset) => self.pos = (self.data.len() as i64 + offset) as u64,
+        let (base, offset) = match pos {
+            io::SeekFrom::Start(offset) => {
+                self.pos = offset;
+                return Ok(self.pos);
+            },
+            io::SeekFrom::Current(offset) => (self.pos, offset),
+            io::SeekFrom::End(offset) => (self.data.len() as u64, offset),
+        };
+        match base.checked_add_signed(offset) {
+            Some(pos) => {
+                self.pos = pos;
+                Ok(self.pos)
+            },
+            None => Err(io::Error::new(
+                io::ErrorKind::InvalidInput,
+                "invalid seek to a negative or overflowing position",
+            )),
         }
-        Ok(self.pos)
     }
 }
 
